@@ -486,11 +486,37 @@ pub fn check_c09(tier: Tier) -> i32 {
 
 #[allow(clippy::too_many_arguments)]
 fn c05_case<A: Subject>(run: &Run, cfg: &Cfg, st: &Start, word: &[Op], cut: usize, mode: Mode, capo: CapOpt, flush: bool, create: bool) -> bool {
-  let case = json!({"engine": "c05", "tag": "C05", "flavour": A::FLAVOUR, "cfg": cfg, "start": st, "word": word, "cut": cut, "mode": mode, "cap": capo, "flush": flush, "create": create});
+  c05_case_t::<A>(run, cfg, st, word, cut, mode, capo, flush, create, false)
+}
+
+/// `trunc`: the (unsync) arena is resized with `truncate` before the history starts, so that everything the
+/// history does goes through the mapping that `truncate` set up
+#[allow(clippy::too_many_arguments)]
+fn c05_case_t<A: Subject>(run: &Run, cfg: &Cfg, st: &Start, word: &[Op], cut: usize, mode: Mode, capo: CapOpt, flush: bool, create: bool, trunc: bool) -> bool {
+  let case = json!({"engine": "c05", "tag": "C05", "flavour": A::FLAVOUR, "cfg": cfg, "start": st, "word": word, "cut": cut, "mode": mode, "cap": capo, "flush": flush, "create": create, "trunc": trunc});
   crate::crashguard::set_case(crate::crashguard::head_of(&case));
-  let bad = |class: &str, msg: String| viol(run, "C05", class, format!("[{} {:?} start {} history {} | close{} + reopen {:?} {:?}{} | {}] {}", A::FLAVOUR, cfg.fl, st.name, word_str(&word[..cut]), if flush { "(flush)" } else { "" }, mode, capo, if create { " create" } else { "" }, word_str(&word[cut..]), msg), case.clone());
+  let bad = |class: &str, msg: String| viol(run, "C05", class, format!("[{} {:?} start {} history {}{} | close{} + reopen {:?} {:?}{} | {}] {}", A::FLAVOUR, cfg.fl, st.name, if trunc { "truncate(capacity + 48) " } else { "" }, word_str(&word[..cut]), if flush { "(flush)" } else { "" }, mode, capo, if create { " create" } else { "" }, word_str(&word[cut..]), msg), case.clone());
   let mut r = Runner::<A>::new(cfg).unwrap();
   let mut twin = Runner::<A>::new(cfg).unwrap();
+  let mut cfgv = *cfg;
+  if trunc {
+    cfgv.cap += 48;
+    let mut grown = vec![];
+    for x in [r, twin] {
+      let (mut arena, path) = x.into_arena();
+      match arena.truncate_(cfgv.cap as usize) {
+        Some(Ok(())) if arena.capacity() == cfgv.cap as usize => {}
+        other => {
+          bad("truncate-before-history", format!("truncate({}) on the new arena: {:?}, capacity {}", cfgv.cap, other.map(|r| r.map_err(|e| e.to_string())), arena.capacity()));
+          return true;
+        }
+      }
+      grown.push(Runner::<A>::from_arena(&cfgv, arena, path));
+    }
+    twin = grown.pop().unwrap();
+    r = grown.pop().unwrap();
+  }
+  let cfg = &cfgv;
   let mut v = vec![];
   for su in &st.setup {
     match su {
@@ -726,8 +752,10 @@ fn c05_cell<A: Subject>(run: &Run, cfg: &Cfg, alphabet: &[Op], depth: usize, tho
           let all8: Vec<Mode> = Mode::ALL.iter().chain(Mode::PB.iter()).cloned().collect();
           vec![(if h % 4 == 0 { Mode::MapMutPb } else { Mode::MapMut }, [CapOpt::Same, CapOpt::Absent, CapOpt::Plus64][h % 3], h % 2 == 0, h % 5 == 0), (all8[1 + h % 7], [CapOpt::Same, CapOpt::Absent, CapOpt::Plus64][(h / 3) % 3], h % 2 == 1, false)]
         };
-        for (mode, capo, flush, create) in variants {
-          if !c05_case::<A>(run, cfg, st, &word, cut, mode, capo, flush, create) {
+        for (k, (mode, capo, flush, create)) in variants.into_iter().enumerate() {
+          // the flavour that has `truncate`: every third case first resizes the arena
+          let trunc = !A::SYNC && cfg.file_offset == 0 && (h + k) % 3 == 0;
+          if !c05_case_t::<A>(run, cfg, st, &word, cut, mode, capo, flush, create, trunc) {
             disabled_at = Some(cut);
             break;
           }
@@ -1158,7 +1186,7 @@ pub fn replay(case: &Value) -> i32 {
       if sync {
         c05_case::<sync::Arena>(&run, &cfg, &st, &word, cut, mode, capo, flush, create);
       } else {
-        c05_case::<unsync::Arena>(&run, &cfg, &st, &word, cut, mode, capo, flush, create);
+        c05_case_t::<unsync::Arena>(&run, &cfg, &st, &word, cut, mode, capo, flush, create, case["trunc"].as_bool().unwrap_or(false));
       }
       run.finish()
     }
